@@ -921,9 +921,11 @@ class Interp:
                     if init is None or init[0] == 'undef':
                         continue
                     none_like = init[0] == 'agg' and not init[3] and init[2]
+                    # a struct local whose fields are updated in place lives in mem, not env: it is loop-variant
+                    if any(root_of(k) == ('local', fid, l) for s in rec['step'] for k in s['mem']) or any(root_of(k) == ('local', fid, l) for k in rec['init_mem']):
+                        continue
                     if all(s['env'].get(l) == symv or s['env'].get(l) == init or
-                           (none_like and s['env'].get(l) is not None and ('is', s['env'].get(l), init[2]) in s['facts']) for s in rec['step']) \
-                            and any(s['env'].get(l) != symv for s in rec['step']):
+                           (none_like and s['env'].get(l) is not None and ('is', s['env'].get(l), init[2]) in s['facts']) for s in rec['step']):
                         inv[(fid, h, l)] = init
                         new = True
             if not new or attempt == 2:
@@ -1065,6 +1067,9 @@ class Interp:
         for l in assigned:
             key = (fid, l)
             if key in st.env and (fid, header, l) in getattr(self, '_loop_inv', {}) and self._loop_inv[(fid, header, l)] == st.env[key]:
+                # loop-invariant: its own "symbol" is the initial value
+                rec['init'][l] = st.env[key]
+                rec['sym'][l] = st.env[key]
                 continue
             if key in st.env and l in addr_only and st.env[key][0] == 'agg' and st.env[key][1].startswith('iter:'):
                 # a modelled iterator value is a description (source, closures); what advances is the state its closures capture
@@ -1190,6 +1195,11 @@ class Interp:
                         op, a, b = t[2], t[3], t[4]
                         if op in ('wsub', 'sub') and P.le(b, a):
                             return 'proved no underflow: %s <= %s' % (show(b)[:40], show(a)[:40])
+                        if op == 'add' and (a == C(1) or b == C(1)):
+                            # x + 1 cannot wrap when x is strictly below some other usize (a loop counter under `i < n`)
+                            x = b if a == C(1) else a
+                            if any(g[0] == 'lt' and len(g) == 3 and g[1] == x for g in st.facts):
+                                return 'proved no overflow: %s is strictly below another value of its type' % show(x)[:40]
                     if t[0] == 'cmp':
                         pass
             except RecursionError:
